@@ -11,17 +11,17 @@ import (
 // Datum is a value of an Avro schema. K repeats the schema kind so a datum can
 // be printed and compared without its schema.
 type Datum struct {
-	K      string  `json:"k"`
-	B      bool    `json:"b,omitempty"`
-	I      int64   `json:"i,omitempty"`
-	F      uint64  `json:"f,omitempty"` // IEEE bits: float32 bits for "float", float64 bits for "double"
-	S      []byte  `json:"s,omitempty"` // bytes, string, fixed
-	Fields []Datum `json:"fields,omitempty"`
-	Items  []Datum `json:"items,omitempty"`
+	K      string   `json:"k"`
+	B      bool     `json:"b,omitempty"`
+	I      int64    `json:"i,omitempty"`
+	F      uint64   `json:"f,omitempty"` // IEEE bits: float32 bits for "float", float64 bits for "double"
+	S      []byte   `json:"s,omitempty"` // bytes, string, fixed
+	Fields []Datum  `json:"fields,omitempty"`
+	Items  []Datum  `json:"items,omitempty"`
 	Keys   []string `json:"keys,omitempty"`
-	Vals   []Datum `json:"vals,omitempty"`
-	Branch int     `json:"branch,omitempty"`
-	U      *Datum  `json:"u,omitempty"`
+	Vals   []Datum  `json:"vals,omitempty"`
+	Branch int      `json:"branch,omitempty"`
+	U      *Datum   `json:"u,omitempty"`
 }
 
 func Null() Datum            { return Datum{K: "null"} }
